@@ -27,7 +27,7 @@ def FLOORS(tier):
     q = tier == "quick"
     f = {"anc>=2": 200 if q else 5000, "reused-pair": 50 if q else 1000,
          "oracleA-checked": 600 if q else 20000, "oracleB-certificates": 150 if q else 3000,
-         "permuted-mapping": 100, "convert_solution-calls": 1000, "typed-coefficients": 60, "second-look-after-edit": 40}
+         "permuted-mapping": 100, "mapping-preset-before-terms": 60, "convert_solution-calls": 1000, "typed-coefficients": 60, "second-look-after-edit": 40}
     for c in CLASSES:
         for fo in FORMS:
             f["cell:%s:%s" % (c, fo)] = 10 if q else 300
@@ -82,8 +82,31 @@ def make_model(rng, big=False):
                 "numpy.float32": np.float32, "sympy.Integer": lambda v: sympy.Integer(round(v) or 1),
                 "sympy.Rational": lambda v: sympy.Rational(F(v).numerator, F(v).denominator)}[ctype]
         terms = {k: conv(v) for k, v in terms.items()}
+    preset = False
+    if rng.random() < 0.15:
+        # the enumeration is chosen first (set_mapping on the empty model), the terms are added afterwards
+        used = []
+        for k, v in terms.items():
+            if v:
+                used += [x for x in k if x not in used]
+        if len(used) >= 2:
+            perm = list(range(len(used)))
+            rng.shuffle(perm)
+            pairs_ = list(zip(used, perm))
+            rng.shuffle(pairs_)
+            if rng.random() < 0.5:
+                M.set_mapping(dict(pairs_))
+            else:
+                M.set_reverse_mapping({i: v for v, i in pairs_})
+            preset = True
     for k, v in terms.items():
         M[k] += v
+    make_model.last_preset = preset
+    if preset:
+        if M.num_binary_variables == 0:
+            raise Expected()
+        make_model.last_ctype = ctype
+        return cname, M, True
     if cname in ("PCBO", "PCSO") and not big and rng.random() < 0.4:
         # a model that carries a constraint (ancilla labels '__a*' become ordinary variables)
         P = {(rng.choice(labs),): 1, (rng.choice(labs),): 1, (): -1}
@@ -224,6 +247,8 @@ def check_certificate(ctx, M, P, cert, want, lam_sound, w):
 def case(ctx, rng, idx):
     big = rng.random() < 0.25
     cname, M, permuted = make_model(rng, big)
+    if make_model.last_preset:
+        ctx.cat("mapping-preset-before-terms")
     ok = check_once(ctx, rng, cname, M, permuted, big)
     if ok and not big and rng.random() < 0.3:
         # second look: the same object is edited in place and converted again -- nothing of the first conversion may linger
